@@ -3,8 +3,11 @@
 package http1
 
 import (
+	"context"
+
 	"github.com/cloudwego/hertz/internal/bytesconv"
 	zz "github.com/cloudwego/hertz/internal/zzverif"
+	"github.com/cloudwego/hertz/pkg/app"
 	"github.com/cloudwego/hertz/pkg/network/standard"
 )
 
@@ -108,5 +111,70 @@ func ZZ_C03_HexInt() {
 	zz.Cover("parsed", err == nil)
 	if err == nil {
 		zz.Assert("chunk-size-non-negative", n >= 0)
+	}
+}
+
+// ZZ_C03_MP: a multipart/form-data request (default form pre-parsing) whose declared length is
+// above the configured body limit, or whose form is cut short / corrupted at a symbolic byte:
+// no panic; a refused request gets exactly one 4xx carrying Connection: close, its handler does
+// not run and nothing else is served on the connection.
+func ZZ_C03_MP() {
+	val := zz.Bytes("fieldvalue", 2)
+	mp := []byte("--b\r\nContent-Disposition: form-data; name=\"f\"\r\n\r\n")
+	mp = append(mp, val...)
+	mp = append(mp, "\r\n--b--\r\n"...)
+	mode := zz.Choose("mode", 3) // 0 over the limit, 1 one corrupted byte in the form, 2 intact
+	if mode == 1 {
+		p := zz.Range("pos", 0, len(mp)-1)
+		cb := zz.Byte("corrupt")
+		zz.Assume(cb < 0x80) // ASCII: the executor does not decode multi-byte runes with a symbolic lead byte
+		mp[p] = cb
+	}
+	wire := []byte("POST /a HTTP/1.1\r\nHost: h\r\nContent-Type: multipart/form-data; boundary=b\r\nContent-Length: ")
+	wire = append(wire, zzItoa(len(mp))...)
+	wire = append(wire, "\r\n\r\n"...)
+	wire = append(wire, mp...)
+	wire = append(wire, zzSentinel...)
+	nc := zz.NewNetConn(wire)
+	var seen []string
+	core := zzNewCore(func(c context.Context, ctx *app.RequestContext) {
+		seen = append(seen, string(ctx.Request.RequestURI()))
+		_ = ctx.FormValue("f")
+	})
+	s := zzNewServer(core)
+	s.DisablePreParseMultipartForm = false
+	s.IdleTimeout = 1
+	if mode == 0 {
+		s.MaxRequestBodySize = 10
+	}
+	err := s.Serve(context.Background(), standard.ZZNewConn(nc))
+	zz.Cover("reached-assert", true)
+	out := nc.Out
+	// every response on the wire is well-formed
+	pos, n, last := 0, 0, zzResp{}
+	for pos < len(out) {
+		r, k, ok := zzReadResponse(out[pos:], false)
+		if !ok {
+			n = -1
+			break
+		}
+		pos += k
+		n++
+		last = r
+	}
+	zz.Assert("only-well-formed-responses", n >= 0)
+	if mode == 0 {
+		zz.Cover("over-limit", true)
+		zz.Assert("over-limit-body-refused-before-any-handler", len(seen) == 0)
+		zz.Assert("exactly-one-4xx-with-connection-close", n == 1 && last.status/100 == 4 && last.close && err != nil)
+	}
+	if mode == 2 {
+		zz.Assert("intact-form-and-sentinel-handled", len(seen) == 2)
+	}
+	if n >= 0 && len(seen) < 2 && mode == 1 {
+		zz.Cover("corrupted-form-refused", len(seen) == 0)
+		if len(seen) == 0 {
+			zz.Assert("refusal-is-one-4xx-with-connection-close", n == 1 && last.status/100 == 4 && last.close)
+		}
 	}
 }
